@@ -328,6 +328,10 @@ impl FixtureDatabase {
         // Remove from imported_fixtures_cache
         self.imported_fixtures_cache.remove(&canonical);
 
+        // From now on this file's text (hence its imports) is read from disk, which may
+        // differ from the buffer just dropped: views of other files derived from it are stale.
+        self.invalidate_cycle_cache();
+
         // Note: We don't remove from canonical_path_cache because:
         // 1. It's keyed by original path, not canonical path
         // 2. Path->canonical mappings are stable and small
@@ -368,6 +372,8 @@ impl FixtureDatabase {
                 self.available_fixtures_cache.remove(&path);
                 self.imported_fixtures_cache.remove(&path);
             }
+            // Evicted texts are re-read from disk: invalidate what was derived from them
+            self.invalidate_cycle_cache();
 
             debug!(
                 "Cache eviction complete, new size: {}",
